@@ -147,7 +147,10 @@ class Specs:
         if isinstance(node, ast.Name) and node.id in self.consts:
             return ast.literal_eval(self.consts[node.id])
         if isinstance(node, ast.BinOp) and isinstance(node.op, ast.Add):
-            return list(self._lit(node.left)) + list(self._lit(node.right))
+            a, b = self._lit(node.left), self._lit(node.right)
+            if isinstance(a, str) and isinstance(b, str):
+                return a + b
+            return list(a) + list(b)
         return ast.literal_eval(node)
 
     def contract_for(self, qualname):
